@@ -217,7 +217,7 @@ def lf_from_library_tree(prob, t, explicit_lengths=True):
     model = prob["model"]
     kw = {"gc": prob["gc"]} if prob.get("gc", 1) != 1 else {}
     sm = M.make_model(model, **kw)
-    lf = sm.make_likelihood_function(t)
+    lf = sm.make_likelihood_function(t, **({"expm": prob["expm"]} if prob.get("expm") else {}))
     lf.set_alignment(make_aligned_seqs(prob["aln"], moltype=M.moltype_of(model)))
     if prob.get("mprobs") is not None:
         lf.set_motif_probs(prob["mprobs"])
@@ -236,7 +236,7 @@ def relate_library_tree_ops(res, rng, model):
     from cogent3 import make_tree
 
     big = M.kind_of(model) in ("codon", "protein")
-    prob = M.gen_problem(rng, model, ntips=rng.randint(4, 5 if big else 7), ncols=rng.randint(3, 6 if big else 20), ambig=rng.choice([0.0, 0.15]), scoped=False, bins=1, zero_frac=0.0, polytomy=0.2)
+    prob = M.gen_problem(rng, model, ntips=rng.randint(4, 5 if big else 7), ncols=rng.randint(3, 6 if big else 20), ambig=rng.choice([0.0, 0.15]), scoped=False, bins=1, zero_frac=0.0, polytomy=0.2, expm_setting=None if model in M.SOLVED else rng.choice([None, None, "eigen", "pade", "either"]))
     prob["mprobs"] = prob["mprobs"] if "positions" not in (prob["mprobs"] or {}) else None
     dyadic = rng.random() < 0.6  # exact ties for midpoint rooting
     for e in M.edges(prob["tree"]):
@@ -317,7 +317,10 @@ def run_case(case):
         prob = M.gen_problem(
             rng, model, ntips=rng.randint(4, 5 if big else 7), ncols=rng.randint(3, 8 if big else 25),
             ambig=rng.choice([0.0, 0.15]), scoped=rng.random() < 0.4, bins=bins, zero_frac=0.0,
+            expm_setting=None if model in M.SOLVED else rng.choice([None, None, "eigen", "pade", "either"]),
         )
+        if prob.get("expm"):
+            res.count("expm-setting:" + prob["expm"])
         # G: keep every transition probability well above rounding level
         for e in M.edges(prob["tree"]):
             e["length"] = round(rng.uniform(0.01, 1.5), 4)
